@@ -52,6 +52,9 @@ def run_script(impl, cfg, script, nslots, seed=0, preempt=False):
                 w.ws_request('transport=websocket&EIO=4&sid=' + sid_of(w, op['s']), slot=op['s'])
             elif k == 'wsframe':
                 w.ws_frame(op['s'], frame_raw(op['f'], w.cfg['max_buf']))
+            elif k == 'wsframes':
+                for f in op['fs']:
+                    w.ws_frame(op['s'], frame_raw(f, w.cfg['max_buf']))
             elif k == 'wsdrop':
                 w.ws_drop(op['s'])
             elif k == 'anyreq':
@@ -144,7 +147,7 @@ def can(w, op):
     s = op.get('s')
     if s is not None and s not in w.sids:
         return False
-    if k in ('wsframe', 'wsdrop', 'wsframesz'):
+    if k in ('wsframe', 'wsframes', 'wsdrop', 'wsframesz'):
         return ws_active(w, s)
     if k == 'upgrade':
         so = w.socks.get(s)
@@ -161,7 +164,7 @@ FRAMES = ['PINGprobe', 'UPGRADE', 'PONG', 'm1', 'm3', 'mE1', 'CLOSE', 'BAD7', 'O
 
 def gen_script(rng, nslots, length, weights=None, horizon=200, tstep=(1, 24)):
     wts = {'open': 3, 'openrej': 1, 'openws': 1, 'poll': 6, 'post': 6, 'upgrade': 2,
-           'wsframe': 8, 'wsdrop': 1, 'send': 6, 'disconnect': 1, 'save': 1, 'get': 1,
+           'wsframe': 8, 'wsframes': 2, 'wsdrop': 1, 'send': 6, 'disconnect': 1, 'save': 1, 'get': 1,
            'tick': 6}
     if weights:
         wts.update(weights)
@@ -182,6 +185,9 @@ def gen_script(rng, nslots, length, weights=None, horizon=200, tstep=(1, 24)):
             script.append({'op': 'post', 's': s, 'body': rng.choice(BODIES)})
         elif k == 'wsframe':
             script.append({'op': 'wsframe', 's': s, 'f': rng.choice(FRAMES)})
+        elif k == 'wsframes':
+            script.append({'op': 'wsframes', 's': s,
+                           'fs': [rng.choice(FRAMES) for _ in range(rng.choice([2, 2, 3]))]})
         elif k == 'save':
             script.append({'op': 'save', 's': s, 'tok': rng.randint(1, 9)})
         elif k == 'tick':
